@@ -106,6 +106,11 @@ Theorem C01_forgets_persister_refuted :
 Proof. exact forgets_persister_refuted. Qed.
 Print Assumptions C01_forgets_persister_refuted.
 
+Theorem C01_proofs_prestage_refuted :
+  exists g bs o1 o2, oracle_ok o1 /\ oracle_ok o2 /\ run (only 9) o1 never g bs <> run (only 9) o2 never g bs.
+Proof. exact proofs_prestage_refuted. Qed.
+Print Assumptions C01_proofs_prestage_refuted.
+
 (** partial: status and SERVICE events of opaque transactions (transfers, governance, XVM/EVM)
     are inputs of the model; equality of results is proved for equal inputs only.  Also not
     represented (see design.d/C01.md): data races, scheduler-dependent behaviour inside
@@ -128,6 +133,9 @@ Example C01_fixed_timeout_example :
   map r_timeout_counter (run cfg_fixed rev_oracle before1 w_genesis w_timeout) =
   [[]; []; []; [(0, [mk_id 0 16 1; mk_id 0 32 1])]].
 Proof. exact fixed_timeout_example. Qed.
+Example C01_fixed_blacklist_example :
+  map (fun r => map rc_begin_failure (r_receipts r)) (run cfg_fixed rev_oracle before1 w_genesis w_black) = [[]; [false]; [true; false]].
+Proof. exact fixed_blacklist_example. Qed.
 Example C01_fixed_forgets_example :
   map (fun r => map rc_ok (r_receipts r)) (run cfg_fixed o_id before1 w_genesis w_forgets) = [[]; [true]; [true]].
 Proof. exact fixed_forgets_example. Qed.
